@@ -684,11 +684,22 @@ class NF:
     # -- calls ---------------------------------------------------------------------------------
     def _args(self, e: ast.Call, sc, at, depth):
         args = [self.poly(a, sc, at, depth) for a in e.args]
-        kws = {k.arg: self.poly(k.value, sc, at, depth) for k in e.keywords if k.arg is not None}
+        kws = {(k.arg if k.arg is not None else "**"): self.poly(k.value, sc, at, depth) for k in e.keywords}
         return args, kws
 
     def _e_Call(self, e: ast.Call, sc, at, depth):
         f = e.func
+        # 0. a local that merely renames a function (`sg = jax.lax.stop_gradient`, `clip = jnp.clip`): call the function itself
+        if isinstance(f, ast.Name) and sc.cfg is not None and at is not None and f.id not in sc.env:
+            ds = sc.cfg.defs_of(at, f.id)
+            if len(ds) == 1 and ds[0].kind == "assign" and isinstance(ds[0].value, (ast.Name, ast.Attribute)) and depth < 12:
+                tgt = ds[0].value
+                root_ = tgt
+                while isinstance(root_, ast.Attribute):
+                    root_ = root_.value
+                if isinstance(root_, ast.Name) and not sc.cfg.defs_of(ds[0].node, root_.id):
+                    e2 = ast.copy_location(ast.Call(func=tgt, args=e.args, keywords=e.keywords), e)
+                    return self._e_Call(e2, sc, at, depth + 1)
         # 1. library function by resolved name (jnp.mean, jax.lax.stop_gradient, optax.squared_error ...)
         op = None
         recv = None
@@ -846,6 +857,14 @@ class NF:
             if r is not None:
                 return r
         q = f"{mi.name}.{node.name}" if hasattr(node, "name") else qual
+        if isinstance(node, ast.FunctionDef) and kws and "**" not in kws and not any(isinstance(a_, ast.Starred) for a_ in e.args):
+            # one canonical call shape: keywords that continue the positional prefix become positional arguments
+            params = positional_params(node)
+            k2 = dict(kws)
+            a2 = list(args)
+            while len(a2) < len(params) and params[len(a2)] in k2:
+                a2.append(k2.pop(params[len(a2)]))
+            args, kws = a2, k2
         return self._mkcall(q, args, kws)
 
     def inlinable(self, fn: ast.FunctionDef) -> bool:
